@@ -144,6 +144,28 @@ class CallMixin:
             raise OutOfSubset("int() of %r" % (v.k,))
         if name == "bool":
             return SBool(self.truth(st, self.ev(node.args[0], st, cx)))
+        if name == "deepcopy" and len(node.args) == 1:
+            # copy.deepcopy of a value of an opaque collaborator class: a new value that every zero-argument observer
+            # declared for that class cannot tell from the original (assumed; justified by the structural lemma that no
+            # teaal class customises copying). Other kinds are out of subset.
+            v = self.ev(node.args[0], st, cx)
+            k = unopt(v.k)
+            if k.head != "opaque":
+                raise OutOfSubset("deepcopy of kind %r (line %s)" % (v.k, node.lineno))
+            fname = "deepcopy_" + k[1]
+            if fname not in uni.uf:
+                uni.uf[fname] = z3.Function(fname, V, V)
+            t = uni.uf[fname](v.t)
+            for key, con in uni.contracts.items():
+                if key.startswith(k[1] + ".") and con.get("observer") and con.get("params") == ["self"]:
+                    fn = self.observer_fn(key, 1)
+                    st.assume(fn(t) == fn(v.t), glob=True)
+            st.assume(t != v.t, glob=True)
+            note = ("copy.deepcopy(x) of a %s yields a distinct value that agrees with x on every declared zero-argument "
+                    "observer of %s" % (k[1], k[1]))
+            if note not in uni.assumptions:
+                uni.assumptions.append(note)
+            return SV(t, v.k)
         if name == "id":
             # identity of a heap object: its reference (injective; only meaningful for references)
             v = self.ev(node.args[0], st, cx)
